@@ -132,6 +132,23 @@ func expectRebase(u *univ.Universe, s rebaseSet, t int) (verdict string, want []
 					return "unjudged", nil, "input of a confirmed transaction was created after the fork point"
 				}
 			}
+			// the same holds for every other kind of parent element (the walk back to the fork point cannot
+			// carry a proof for an element created above it)
+			for _, in := range tx.SiafundInputs {
+				if _, ok := Lf.SFEs[in.Parent.ID]; !ok {
+					return "unjudged", nil, "siafund input of a confirmed transaction was created after the fork point"
+				}
+			}
+			for _, r := range tx.FileContractRevisions {
+				if _, ok := Lf.V2FCEs[r.Parent.ID]; !ok {
+					return "unjudged", nil, "contract revised by a confirmed transaction was created after the fork point"
+				}
+			}
+			for _, r := range tx.FileContractResolutions {
+				if _, ok := Lf.V2FCEs[r.Parent.ID]; !ok {
+					return "unjudged", nil, "contract resolved by a confirmed transaction was created after the fork point"
+				}
+			}
 			continue
 		}
 		c := tx.DeepCopy()
